@@ -301,6 +301,19 @@ def constructed(rng):
                 lead = rng.choice(("1", "0", "7")) + ("." + frac if nf else "")
                 for sg in ("-", "+", ""):
                     out.append("parse %s" % E.hexs("%se%s%d" % (lead, sg, (1 << w) + small)))
+    # valid literals of 250..1200 bytes (zeros are free: leading zeros, fraction zeros compensated by the exponent, zeros
+    # in front of the exponent's digits) through EVERY entry point (from_str, TryFrom<&str>, TryFrom<String>, str_to_dec)
+    for n in (250, 254, 255, 256, 257, 300, 511, 512, 513, 1024, 1200):
+        body = rng.choice(("1.50", "17", "0.125", "-3.5", "+42"))
+        sign = body[0] if body[0] in "+-" else ""
+        digs = body.lstrip("+-")
+        lits = [sign + "0" * (n - len(body)) + digs,
+                sign + digs + ("" if "." in digs else ".") + "0" * 5 + "e" + "0" * (n - len(body) - 8) + "0",
+                sign + "0." + "0" * (n - 30) + "25e" + str(n - 30 + 1),
+                "0" * n, "0." + "0" * (n - 2), sign + digs + "e-" + "0" * (n - len(body) - 3) + "1" if "." not in digs else sign + digs + "e+" + "0" * (n - len(body) - 3) + "1"]
+        for lit in lits:
+            for op in OPS:
+                out.append("%s %s" % (op, E.hexs(lit)))
     # lengths around chunk boundaries, pure digits and fraction-only
     for n in list(range(0, 12)) + [15, 16, 17, 23, 24, 25, 31, 32, 33, 38, 39, 40, 41, 47, 48, 80]:
         ds = digits(rng, n, True)
